@@ -3,7 +3,7 @@
 
   Model: `Sge.Subaccount` (x/subaccount message servers, keeper, hooks; reward top-ups). Histories are arbitrary
   lists of `Op` (create / top-up / withdraw-unlocked / wager / house-deposit / house-withdraw / reward grant /
-  settlement callbacks in any order / direct bank sends / block-time advances) run from `init fixed bank0`.
+  settlement callbacks in any order / direct bank sends / block-time advances) run from `initCfg fixed fixedNeg fixedRet bank0`.
   `init false …` is the code as it is. Three independent model flags select the patched code:
     `fixed`    repo_patches/sub_unlocked_withdraw.diff    (unlocked total minus what was already withdrawn)
     `fixedNeg` repo_patches/sub_wager_nonneg_deduct.diff  (wager ticket payload rejects negative deductions)
@@ -26,21 +26,21 @@ import SgeProofs.Lemmas.SubaccountWager
 namespace Sge.Subaccount
 
 /-- C11.a `summary_nonneg`: in every reachable state none of Deposited / Spent / Withdrawn / Lost is negative. -/
-theorem c11_summary_nonneg (fixed : Bool) (bank0 : Nat → Int) (hb : ∀ a, 0 ≤ bank0 a) (ops : List Op)
-    (a : Nat) (sub : Sub) (h : (run (init fixed bank0) ops).subs a = some sub) :
+theorem c11_summary_nonneg (fixed fixedNeg fixedRet : Bool) (bank0 : Nat → Int) (hb : ∀ a, 0 ≤ bank0 a) (ops : List Op)
+    (a : Nat) (sub : Sub) (h : (run (initCfg fixed fixedNeg fixedRet bank0) ops).subs a = some sub) :
     0 ≤ sub.sum.deposited ∧ 0 ≤ sub.sum.spent ∧ 0 ≤ sub.sum.withdrawn ∧ 0 ≤ sub.sum.lost := by
-  have := ((run_inv (init_inv fixed bank0 hb) ops).subOK a sub h).sum
+  have := ((run_inv (initCfg_inv fixed fixedNeg fixedRet bank0 hb) ops).subOK a sub h).sum
   exact ⟨this.dep, this.spent, this.wd, this.lost⟩
 
 /-- C11.b `one_sub_per_owner`: the owner→subaccount and subaccount→owner stores are mutually inverse, hence no owner
     has two subaccounts; every subaccount record has both map entries. -/
-theorem c11_one_sub_per_owner (fixed : Bool) (bank0 : Nat → Int) (hb : ∀ a, 0 ≤ bank0 a) (ops : List Op) :
-    let s := run (init fixed bank0) ops
+theorem c11_one_sub_per_owner (fixed fixedNeg fixedRet : Bool) (bank0 : Nat → Int) (hb : ∀ a, 0 ≤ bank0 a) (ops : List Op) :
+    let s := run (initCfg fixed fixedNeg fixedRet bank0) ops
     (∀ o a, s.ownerMap o = some a ↔ s.subMap a = some o) ∧
     (∀ a1 a2 o, s.subMap a1 = some o → s.subMap a2 = some o → a1 = a2) ∧
     (∀ a, (s.subs a).isSome ↔ (s.subMap a).isSome) := by
   intro s
-  have hinv := run_inv (init_inv fixed bank0 hb) ops
+  have hinv := run_inv (initCfg_inv fixed fixedNeg fixedRet bank0 hb) ops
   refine ⟨hinv.mapsInv, ?_, hinv.subsDom⟩
   intro a1 a2 o h1 h2
   have e1 := (hinv.mapsInv o a1).mpr h1
@@ -52,16 +52,16 @@ theorem c11_one_sub_per_owner (fixed : Bool) (bank0 : Nat → Int) (hb : ∀ a, 
     accounts; the house deposit takes at most the amount; the house withdrawal pays at least what it reports; each
     settlement payout covers what its hook books), every subaccount address holds at least
     Deposited − Withdrawn − Spent − Lost. -/
-theorem c11_bank_ge_available (fixed : Bool) (bank0 : Nat → Int) (hb : ∀ a, 0 ≤ bank0 a) (ops : List Op)
-    (hok : ∀ op ∈ ops, ExtOK op) (a : Nat) (sub : Sub) (h : (run (init fixed bank0) ops).subs a = some sub) :
-    sub.sum.available ≤ (run (init fixed bank0) ops).bank a := by
-  have hinv0 := init_inv fixed bank0 hb
+theorem c11_bank_ge_available (fixed fixedNeg fixedRet : Bool) (bank0 : Nat → Int) (hb : ∀ a, 0 ≤ bank0 a) (ops : List Op)
+    (hok : ∀ op ∈ ops, ExtOK op) (a : Nat) (sub : Sub) (h : (run (initCfg fixed fixedNeg fixedRet bank0) ops).subs a = some sub) :
+    sub.sum.available ≤ (run (initCfg fixed fixedNeg fixedRet bank0) ops).bank a := by
+  have hinv0 := initCfg_inv fixed fixedNeg fixedRet bank0 hb
   have hinv := run_inv hinv0 ops
-  have h0 : ∀ x, subBase ≤ x → 0 ≤ surplus (init fixed bank0) x := by
+  have h0 : ∀ x, subBase ≤ x → 0 ≤ surplus (initCfg fixed fixedNeg fixedRet bank0) x := by
     intro x _
-    simp only [surplus, availOf, init]
+    simp only [surplus, availOf, initCfg]
     have := hb x; omega
-  have := (run_surplus_nonneg hinv0 (by intro a o h; simp [init] at h) h0 ops hok).2 a (hinv.range a (by simp [h])).1
+  have := (run_surplus_nonneg hinv0 (by intro a o h; simp [initCfg] at h) h0 ops hok).2 a (hinv.range a (by simp [h])).1
   simp only [surplus, availOf, h] at this
   omega
 
@@ -69,20 +69,20 @@ theorem c11_bank_ge_available (fixed : Bool) (bank0 : Nat → Int) (hb : ∀ a, 
     address of the subaccount range was pre-funded, and nobody sent tokens directly (ghost flag `clean`: cleared only
     by a bank send / funding to an address of the subaccount range, or by a custody payout to such an address that
     has no subaccount). -/
-theorem c11_bank_eq_available (fixed : Bool) (bank0 : Nat → Int) (hb : ∀ a, 0 ≤ bank0 a) (hz : ∀ a, subBase ≤ a → bank0 a = 0)
+theorem c11_bank_eq_available (fixed fixedNeg fixedRet : Bool) (bank0 : Nat → Int) (hb : ∀ a, 0 ≤ bank0 a) (hz : ∀ a, subBase ≤ a → bank0 a = 0)
     (ops : List Op) (hok : ∀ op ∈ ops, ExtOK op ∧ ExtExact op)
-    (hclean : (run (init fixed bank0) ops).clean = true)
-    (a : Nat) (sub : Sub) (h : (run (init fixed bank0) ops).subs a = some sub) :
-    (run (init fixed bank0) ops).bank a = sub.sum.available := by
-  have hinv0 := init_inv fixed bank0 hb
+    (hclean : (run (initCfg fixed fixedNeg fixedRet bank0) ops).clean = true)
+    (a : Nat) (sub : Sub) (h : (run (initCfg fixed fixedNeg fixedRet bank0) ops).subs a = some sub) :
+    (run (initCfg fixed fixedNeg fixedRet bank0) ops).bank a = sub.sum.available := by
+  have hinv0 := initCfg_inv fixed fixedNeg fixedRet bank0 hb
   have hinv := run_inv hinv0 ops
-  have hb0 : InvBank (init fixed bank0) := by
-    refine ⟨by intro a o h; simp [init] at h, ?_, ?_⟩
+  have hb0 : InvBank (initCfg fixed fixedNeg fixedRet bank0) := by
+    refine ⟨by intro a o h; simp [initCfg] at h, ?_, ?_⟩
     · intro x _
-      simp only [surplus, availOf, init]
+      simp only [surplus, availOf, initCfg]
       have := hb x; omega
     · intro _ x hx
-      simp only [surplus, availOf, init, hz x hx]
+      simp only [surplus, availOf, initCfg, hz x hx]
       omega
   have := (run_invBank hinv0 hb0 ops hok).eq hclean a (hinv.range a (by simp [h])).1
   simp only [surplus, availOf, h] at this
@@ -91,14 +91,14 @@ theorem c11_bank_eq_available (fixed : Bool) (bank0 : Nat → Int) (hb : ∀ a, 
 /-- C11.d `hooks_total`: a settlement hook cannot fail (panic — which inside the end-blocker halts the chain) when
     the amount to un-spend is within [0, Spent], the loss is non-negative, and (house win) the profit is
     non-negative and covered by the subaccount's bank balance. Addresses without a subaccount are ignored. -/
-theorem c11_hooks_total (fixed : Bool) (bank0 : Nat → Int) (hb : ∀ a, 0 ≤ bank0 a) (ops : List Op)
+theorem c11_hooks_total (fixed fixedNeg fixedRet : Bool) (bank0 : Nat → Int) (hb : ∀ a, 0 ≤ bank0 a) (ops : List Op)
     (k : HookKind) (house : Nat) (x y : Int) :
-    let s := run (init fixed bank0) ops
+    let s := run (initCfg fixed fixedNeg fixedRet bank0) ops
     (s.subs house = none → (hook s k house x y).2 = .ok) ∧
     (∀ sub, s.subs house = some sub → 0 ≤ x → x ≤ sub.sum.spent →
       (k = .loss → 0 ≤ y) → (k = .win → 0 ≤ y ∧ y ≤ s.bank house) → (hook s k house x y).2 = .ok) := by
   intro s
-  have hinv : Inv s := run_inv (init_inv fixed bank0 hb) ops
+  have hinv : Inv s := run_inv (initCfg_inv fixed fixedNeg fixedRet bank0 hb) ops
   constructor
   · intro hs
     unfold hook
@@ -124,13 +124,13 @@ theorem c11_hook_panics_beyond_spent (s : State) (k : HookKind) (house : Nat) (x
   have := unspend_none_of_gt hx
   cases k <;> simp [hook, hookWin, hookLoss, hookRefund, hs, this]
 
-/-- C11.e `lock_bound` (patched code, `fixed = true`): at every point of every history the total released by
+/-- C11.e `lock_bound` (code with sub_unlocked_withdraw.diff, `fixed = true`, with or without the other two patches): at every point of every history the total released by
     unlocked-balance withdrawals is at most the total of the locks whose unlock time has passed. -/
-theorem c11_lock_bound (bank0 : Nat → Int) (hb : ∀ a, 0 ≤ bank0 a) (ops : List Op)
-    (a : Nat) (sub : Sub) (h : (run (init true bank0) ops).subs a = some sub) :
-    sub.released ≤ unlockedSum (run (init true bank0) ops).now sub.locks := by
-  have hinv := run_inv (init_inv true bank0 hb) ops
-  have hfix : (run (init true bank0) ops).fixed = true := by
+theorem c11_lock_bound (fixedNeg fixedRet : Bool) (bank0 : Nat → Int) (hb : ∀ a, 0 ≤ bank0 a) (ops : List Op)
+    (a : Nat) (sub : Sub) (h : (run (initCfg true fixedNeg fixedRet bank0) ops).subs a = some sub) :
+    sub.released ≤ unlockedSum (run (initCfg true fixedNeg fixedRet bank0) ops).now sub.locks := by
+  have hinv := run_inv (initCfg_inv true fixedNeg fixedRet bank0 hb) ops
+  have hfix : (run (initCfg true fixedNeg fixedRet bank0) ops).fixed = true := by
     have : ∀ (s : State) (ops : List Op), (run s ops).fixed = s.fixed := by
       intro s ops
       unfold run
@@ -184,14 +184,14 @@ theorem c11_lock_bound_cex_fixed :
     (number of successful unlocked-balance withdrawals) × (total whose unlock time has passed). In particular the
     bound of C11 holds as long as the subaccount made at most one such withdrawal.
     Excluded: histories with a second successful WithdrawUnlockedBalances of the same subaccount. -/
-theorem c11_lock_bound_partial (fixed : Bool) (bank0 : Nat → Int) (hb : ∀ a, 0 ≤ bank0 a) (ops : List Op)
-    (a : Nat) (sub : Sub) (h : (run (init fixed bank0) ops).subs a = some sub) :
-    sub.released ≤ sub.nRel * unlockedSum (run (init fixed bank0) ops).now sub.locks ∧
-    (sub.nRel ≤ 1 → sub.released ≤ unlockedSum (run (init fixed bank0) ops).now sub.locks) ∧
+theorem c11_lock_bound_partial (fixed fixedNeg fixedRet : Bool) (bank0 : Nat → Int) (hb : ∀ a, 0 ≤ bank0 a) (ops : List Op)
+    (a : Nat) (sub : Sub) (h : (run (initCfg fixed fixedNeg fixedRet bank0) ops).subs a = some sub) :
+    sub.released ≤ sub.nRel * unlockedSum (run (initCfg fixed fixedNeg fixedRet bank0) ops).now sub.locks ∧
+    (sub.nRel ≤ 1 → sub.released ≤ unlockedSum (run (initCfg fixed fixedNeg fixedRet bank0) ops).now sub.locks) ∧
     sub.released ≤ sub.sum.withdrawn := by
-  have hinv := run_inv (init_inv fixed bank0 hb) ops
+  have hinv := run_inv (initCfg_inv fixed fixedNeg fixedRet bank0 hb) ops
   have hok := hinv.subOK a sub h
-  have hU := unlockedSum_nonneg (run (init fixed bank0) ops).now sub.locks hok.locks
+  have hU := unlockedSum_nonneg (run (initCfg fixed fixedNeg fixedRet bank0) ops).now sub.locks hok.locks
   refine ⟨hok.lockPartial, ?_, ?_⟩
   · intro hn
     have h1 := hok.lockPartial
@@ -206,11 +206,11 @@ theorem c11_lock_bound_partial (fixed : Bool) (bank0 : Nat → Int) (hb : ∀ a,
 /-- C11.f `transfers_to_owner_kinds`: every bank transfer from a subaccount address to its owner that the module
     performs is an unlocked-balance withdrawal, a wager deduction or forwarded house profit (`toOwner` counts all
     of them at the three call sites of `SendCoins(subaccount → owner)`), and Withdrawn = released + wagered. -/
-theorem c11_transfers_to_owner_kinds (fixed : Bool) (bank0 : Nat → Int) (hb : ∀ a, 0 ≤ bank0 a) (ops : List Op)
-    (a : Nat) (sub : Sub) (h : (run (init fixed bank0) ops).subs a = some sub) :
+theorem c11_transfers_to_owner_kinds (fixed fixedNeg fixedRet : Bool) (bank0 : Nat → Int) (hb : ∀ a, 0 ≤ bank0 a) (ops : List Op)
+    (a : Nat) (sub : Sub) (h : (run (initCfg fixed fixedNeg fixedRet bank0) ops).subs a = some sub) :
     sub.toOwner = sub.released + sub.wagered + sub.profitOut ∧ sub.sum.withdrawn = sub.released + sub.wagered ∧
     0 ≤ sub.released ∧ 0 ≤ sub.wagered ∧ 0 ≤ sub.profitOut := by
-  have hok := (run_inv (init_inv fixed bank0 hb) ops).subOK a sub h
+  have hok := (run_inv (initCfg_inv fixed fixedNeg fixedRet bank0 hb) ops).subOK a sub h
   exact ⟨hok.toOwnerSplit, hok.wdSplit, hok.relNonneg, hok.wagNonneg, hok.profNonneg⟩
 
 /-- C11.g `locked_exit_only_staked`, wager step: a successful subaccount wager of a key-holding owner (not a
